@@ -91,6 +91,7 @@ type Frame struct {
 	cbArgTypes map[string]types.Type
 	cbRetType types.Type
 	quiet    int
+	rets     []*retInfo
 	targetCache map[*Clause][]*Clause
 }
 
@@ -363,6 +364,7 @@ type retInfo struct {
 	st      *State
 	guard   *Term
 	results []*Term
+	pos     token.Pos
 }
 
 // run executes fr.fn from state st under guard; returns merged exit.
@@ -443,7 +445,11 @@ func (fr *Frame) run(st *State, guard *Term) (results []*Term, out *State, outGu
 		return nil, st, c.False()
 	}
 	var edges []*uedge
+	fr.rets = nil
 	for _, r := range rets {
+		if fr.top && !r.guard.isFalse() {
+			fr.rets = append(fr.rets, &retInfo{st: r.st.clone(), guard: r.guard, results: r.results, pos: r.pos})
+		}
 		rs := r.st
 		for i, v := range r.results {
 			rs.regs[retKey(i)] = v
@@ -615,6 +621,15 @@ func (fr *Frame) enterCutLoop(n *unode, l *Loop, s *State, g *Term, phis []*ssa.
 		t := fr.evalClauseAt(inv, s, l, nil)
 		fr.oblige("invariant-init", loopLabel(l, inv, i), inv.Pos, g, t, inv.Text)
 	}
+	autos := fr.autoInvariants(l, phis)
+	for i, a := range autos {
+		fr.oblige("invariant-init", fmt.Sprintf("loop%d.auto%d", l.Ordinal, i+1), l.MinPos, g, a(s), "range index stays in [-1, len)")
+	}
+	defer func() {
+		for _, a := range autos {
+			x.assume(g, a(s))
+		}
+	}()
 	pre := s.clone()
 	// 2. havoc
 	var targets []target
@@ -655,6 +670,39 @@ func (fr *Frame) enterCutLoop(n *unode, l *Loop, s *State, g *Term, phis []*ssa.
 	} else {
 		x.note(fmt.Sprintf("termination of loop %d in %s not claimed (no decreases clause)", l.Ordinal, shortKey(fr.key)))
 	}
+}
+
+// autoInvariants: invariants the engine supplies (and checks like any other)
+// for compiler-generated loop variables that no contract can name: the hidden
+// index of `for ... range slice` stays in [-1, len).
+func (fr *Frame) autoInvariants(l *Loop, phis []*ssa.Phi) []func(*State) *Term {
+	c := fr.x.c
+	var out []func(*State) *Term
+	for _, phi := range phis {
+		if phi.Comment != "rangeindex" {
+			continue
+		}
+		// find  t = phi + 1 ; t < n  in the header
+		var lim ssa.Value
+		for _, ins := range l.Header.Instrs {
+			if b, ok := ins.(*ssa.BinOp); ok && b.Op == token.LSS {
+				if inc, ok := b.X.(*ssa.BinOp); ok && inc.Op == token.ADD && inc.X == phi {
+					lim = b.Y
+				}
+			}
+		}
+		if lim == nil {
+			continue
+		}
+		phi, lim := phi, lim
+		out = append(out, func(s *State) *Term {
+			p := s.regs[phi]
+			n := fr.value(s, lim)
+			m1 := c.BV(^uint64(0), 64)
+			return c.And(c.BVCmp("bvsge", p, m1), c.Or(c.Eq(p, m1), c.BVCmp("bvslt", p, n)))
+		})
+	}
+	return out
 }
 
 func loopLabel(l *Loop, cl *Clause, i int) string {
@@ -718,6 +766,9 @@ func (fr *Frame) backEdge(n *unode, e *uedge, s *State, g *Term) {
 	for i, inv := range invs {
 		t := fr.evalClauseAt(inv, ts, l, nil)
 		fr.oblige("invariant-preserve", loopLabel(l, inv, i), inv.Pos, g, t, inv.Text)
+	}
+	for i, a := range fr.autoInvariants(l, phis) {
+		fr.oblige("invariant-preserve", fmt.Sprintf("loop%d.auto%d", l.Ordinal, i+1), l.MinPos, g, a(ts), "range index stays in [-1, len)")
 	}
 	if dec != nil {
 		d0 := fr.loopD0[key]
